@@ -31,6 +31,7 @@ type frame struct {
 	inExc  bool
 	havocExceptional bool // havoc for an exceptional edge (stable-on-return ghosts are not stable)
 	inDeferred int // >0 while a deferred call of this frame is being executed
+	loopOwnWrites map[string]int // write set of the loop's own (non-call) instructions, set by loopModSet
 	loopCovers map[*loop]*loopCover
 	loopCoverOrder []*loop
 }
